@@ -237,6 +237,28 @@ func (rw *rewriter) isSysCall(n *ast.CallExpr) bool {
 	return ok && fn.Pkg() != nil && (fn.Pkg().Path() == "os" || fn.Pkg().Path() == "io/ioutil")
 }
 
+// isSysMethod: a method call on a value of package os / io/fs (a file handle, a directory entry whose
+// Info() stats the file, ...) from one of the disk packages; pure accessors are left alone.
+func (rw *rewriter) isSysMethod(n *ast.CallExpr) bool {
+	if !strings.HasSuffix(rw.pkg.PkgPath, "filesystem/disk") && !strings.HasSuffix(rw.pkg.PkgPath, "filesystem/filespace/diskfs") {
+		return false
+	}
+	sel, ok := n.Fun.(*ast.SelectorExpr)
+	if !ok {
+		return false
+	}
+	switch sel.Sel.Name {
+	case "Name", "IsDir", "Mode", "Size", "ModTime", "Sys", "Type", "String", "Error", "Perm", "IsRegular", "Fd":
+		return false
+	}
+	s, ok := rw.info.Selections[sel]
+	if !ok || s.Kind() != types.MethodVal {
+		return false
+	}
+	fn, ok := s.Obj().(*types.Func)
+	return ok && fn.Pkg() != nil && (fn.Pkg().Path() == "os" || fn.Pkg().Path() == "io/fs")
+}
+
 func (rw *rewriter) isBuiltin(e ast.Expr, name string) bool {
 	id, ok := e.(*ast.Ident)
 	if !ok || id.Name != name {
@@ -367,6 +389,23 @@ func (rw *rewriter) file(f *ast.File, constSet map[string]bool) error {
 					c.Replace(nc)
 				}
 				return true
+			}
+			if rw.isSysMethod(n) {
+				// entry.Info() -> vsched.SysArg(entry).Info()
+				switch c.Parent().(type) {
+				case *ast.DeferStmt, *ast.GoStmt:
+					// (deferred Close etc.: the receiver is evaluated at the defer statement - no point there)
+				default:
+					rw.counts["sysmethod"]++
+					sel := n.Fun.(*ast.SelectorExpr)
+					x := sel.X
+					nc := rw.call("SysArg", x)
+					if t := rw.typeOf(x); t != nil {
+						rw.typeOv[nc] = t
+					}
+					sel.X = nc
+					return true
+				}
 			}
 			if rw.isSysCall(n) {
 				// os.Mkdir(p, m) -> os.Mkdir(vsched.SysArg(p), m): a scheduling point right before the call
